@@ -90,9 +90,15 @@ impl Prop for C11 {
     const ID: &'static str = "C11";
 
     fn lanes(tier: Tier) -> Vec<Lane> {
-        vec![Lane::new("main", tier.pick(1_500_000, 25_000_000))
-            .cap(tier.pick(120, 1200))
-            .floor(tier.pick(50_000, 500_000))]
+        vec![
+            Lane::new("main", tier.pick(1_500_000, 25_000_000))
+                    .cap(tier.pick(120, 1200))
+                    .floor(tier.pick(50_000, 500_000)),
+            // every length 10 / 50 / 250 times bigger (strings of up to 10 000 symbols)
+            Lane::new("large", tier.pick(30_000, 500_000))
+                .cap(tier.pick(150, 1200))
+                .floor(tier.pick(2_000, 30_000)),
+        ]
     }
 
     fn rule() -> &'static str {
